@@ -81,7 +81,9 @@ def propagate(body, seeds, fixed=()):
                 labels = set()
                 for l in arg_locals:
                     labels |= taint.get(l, set())
-                add(t["d"]["l"], labels)
+                # a predicate's verdict (`args.iter().any(..)`, `==`) says something *about* the labelled values, it is not one of them
+                if t.get("dty") != "bool":
+                    add(t["d"]["l"], labels)
                 for l in arg_locals:
                     for target in ref_of.get(l, ()):
                         add(target, labels)
